@@ -184,4 +184,34 @@ def closedLoop {o : Type*} [Fintype o] (A : Matrix n n K) (B : Matrix n m K) (Cp
 
 end Ctrl
 
+/-! ### `create_statefbk_iosystem(..., control_indices=…)`: the controller drives a selection of
+the plant inputs -/
+
+section Sel
+variable {n mt m r q o : Type*} [Fintype n] [DecidableEq n] [Fintype mt] [DecidableEq mt]
+  [Fintype m] [DecidableEq m] [Fintype q] [DecidableEq q] [Fintype o]
+
+/-- the connection `interconnect` makes from the signal names: the controller is created with
+`outputs = [sys.input_labels[i] for i in control_indices]`, so its output `j` carries the name of
+plant input `sel j` and is wired to that input (`sel = control_indices` as a function; the names of
+the plant inputs are distinct).  Entry `(i, j)` is `1` iff controller output `j` drives plant
+input `i`. -/
+def wire (sel : m → mt) : Matrix mt m K := Matrix.of fun i j => if sel j = i then 1 else 0
+
+/-- the closed loop for `control_indices = sel`: the plant input vector is
+`wire sel · u_ctrl + wire rest · d`, where `rest` lists the plant inputs the controller does not
+drive; `add_unused=True` keeps those as further inputs `d` of the closed loop.
+States: plant then controller; inputs `(x_d ⊕ u_d) ⊕ d`; outputs `y ⊕ u_ctrl`
+(`outlist = sys.output_labels + [sys.input_labels[i] for i in control_indices]`). -/
+def closedLoopSel (A : Matrix n n K) (B : Matrix n mt K) (Cp : Matrix o n K)
+    (sel : m → mt) (rest : r → mt) (c : SS q ((n ⊕ m) ⊕ o) m K) :
+    SS (n ⊕ q) ((n ⊕ m) ⊕ r) (o ⊕ m) K :=
+  let cl := closedLoop A (B * wire sel) Cp c
+  { A := cl.A
+    B := fromCols cl.B (fromRows (B * wire rest) 0)
+    C := cl.C
+    D := fromCols cl.D 0 }
+
+end Sel
+
 end CtrlVerif.StateFbk
